@@ -300,15 +300,26 @@ func (c *Ctx) bodyElements(ia *interpAnchors) {
 			"an element of a procedure body is dispatched with the execute flag set: a procedure literal inside a body would be run instead of pushed")
 	}
 	// tail jump: phis of the dispatch header
+	// the header is the block in which the operation is counted: the store to the counter, or the
+	// call of the helper that holds it (opCounter, ext_x6.go)
 	var hdr *ssa.BasicBlock
-	eachInstr(fn, func(ins ssa.Instruction) {
-		if st, ok := ins.(*ssa.Store); ok && isFieldAddr(st.Addr, ia.T, "NumOps") {
-			hdr = st.Block()
+	oc := c.opCounter(ia)
+	for _, b := range fn.Blocks {
+		if oc.marked(b) {
+			hdr = b
 		}
-	})
+	}
 	if hdr == nil {
 		c.fail("CTL-BODYELEM", fname, "dispatch header", fn.Pos(), "dispatch header (operation counter) not found")
 		return
+	}
+	// the values with which the header is entered: its own phis, or those of the nearest block above
+	// it that control reaches the header from without a branch in between
+	for len(hdr.Instrs) > 0 && len(hdr.Preds) == 1 && len(hdr.Preds[0].Succs) == 1 {
+		if _, isPhi := hdr.Instrs[0].(*ssa.Phi); isPhi {
+			break
+		}
+		hdr = hdr.Preds[0]
 	}
 	var objPhi, flagPhi *ssa.Phi
 	for _, ins := range hdr.Instrs {
